@@ -14,6 +14,7 @@ From SWH Require Import Generated.
 From SWH.model Require Import Ident.
 From SWH.model Require Dir Snap Rel Rev.
 From SWH.proofs Require Import IdentProofs.
+From SWH.proofs Require IdentExamples.
 Import ListNotations.
 
 (* Built without an explicit id (id = b"" on entry of __attrs_post_init__):
